@@ -376,6 +376,25 @@ func corruptQuic(ps [][2]string, kind string, idx, off int) ([]byte, bool) {
 			v = "x"
 		}
 		return append(whole, encodePairs([][2]string{{ps[idx-1][0], v}})...), true
+	case "dupkeyempty":
+		if !at(idx) {
+			return nil, false
+		}
+		return append(whole, encodePair([]byte(ps[idx-1][0]), nil, len(ps[idx-1][0]), 0)...), true
+	case "emptyfirst":
+		if !at(idx) {
+			return nil, false
+		}
+		b := encodePairs(ps[:idx-1])
+		b = append(b, encodePair([]byte(ps[idx-1][0]), nil, len(ps[idx-1][0]), 0)...)
+		return append(b, encodePairs(ps[idx-1:])...), true
+	case "emptyval":
+		if !at(idx) {
+			return nil, false
+		}
+		b := encodePairs(ps[:idx-1])
+		b = append(b, encodePair([]byte(ps[idx-1][0]), nil, len(ps[idx-1][0]), 0)...)
+		return append(b, encodePairs(ps[idx:])...), true
 	case "badutf8k", "badutf8v", "lenoverk", "lenoverv":
 		if !at(idx) || len(ps[idx-1][0]) == 0 || len(ps[idx-1][1]) == 0 {
 			return nil, false
